@@ -134,7 +134,21 @@ func (ctx *Context) InitRAT() {
 }
 
 func (ctx *Context) TransactionRATWrite(exe Execution, sequenceID int32) {
+	// Results are written in completion order, which is not program order: an
+	// older instruction (a cache-missing load) can complete after a younger
+	// writer of the same register. The younger writes have to remain the most
+	// recent ones, so they are written again on top of the older one.
+	var younger []transactionUnit
+	for _, tu := range ctx.transactionRAT.Recent(exe.Register) {
+		if tu.sequenceID <= sequenceID {
+			break
+		}
+		younger = append(younger, tu)
+	}
 	ctx.transactionRAT.Write(exe.Register, transactionUnit{sequenceID, exe.RegisterValue})
+	for i := len(younger) - 1; i >= 0; i-- {
+		ctx.transactionRAT.Write(exe.Register, younger[i])
+	}
 }
 
 func (ctx *Context) RATCommit() {
